@@ -178,6 +178,8 @@ func runC01(c *fw.Ctx) {
 	if c.Thorough() {
 		plans = []plan{{"btree", 4, 2}, {"mem", 3, 1}, {"disk", 2, 0}}
 	}
+	tcore := []bt.Mut{mset("f", "a", 1000, "x"), mset("f", "a", 2000, "y"), mset("f", "b", 3000, ""), mset("g", "a", -1, "z"),
+		mdelcol("f", "a"), mdelcolr("f", "a", 1000, 2000), mdelfam("f"), {Kind: "delrow"}, mset("nofam", "a", 1000, "x")}
 	cat := c01Catalogue()
 	catKeys := []string{"a", "a\x00", "ab", "\xff"}
 	for _, p := range plans {
@@ -245,6 +247,23 @@ func runC01(c *fw.Ctx) {
 					try(bt.Op{Kind: "MutateRows", Table: tblT, Entries: []bt.Entry{{Key: []byte("a"), Muts: []bt.Mut{m1}}, {Key: []byte("a\x00"), Muts: []bt.Mut{m2}}}})
 				}
 			}
+			// ordered triples of a smaller core in one request / one entry: a write before and after a
+			// delete of the row, family or column, a rejected mutation in every position
+			if p.engine != "btree" && depth > 0 {
+				return
+			}
+			for _, m1 := range tcore {
+				for _, m2 := range tcore {
+					for _, m3 := range tcore {
+						if c.Expired() {
+							c.Incomplete("time budget reached in triple pass")
+							return
+						}
+						try(bt.Op{Kind: "MutateRow", Table: tblT, Key: []byte("a"), Muts: []bt.Mut{m1, m2, m3}})
+						try(bt.Op{Kind: "MutateRows", Table: tblT, Entries: []bt.Entry{{Key: []byte("a\x00"), Muts: []bt.Mut{m1}}, {Key: []byte("a"), Muts: []bt.Mut{m1, m2, m3}}}})
+					}
+				}
+			}
 		}
 		b.Run(c)
 		c.Bound(p.engine+"_bfs_depth", p.depth)
@@ -253,4 +272,5 @@ func runC01(c *fw.Ctx) {
 	c.Bound("alphabet_requests", len(alpha))
 	c.Bound("catalogue_mutations", len(cat)*len(catKeys))
 	c.Bound("core_pairs", len(core)*len(core)*4)
+	c.Bound("core_triples", len(tcore)*len(tcore)*len(tcore)*2)
 }
